@@ -2,7 +2,7 @@
    [run opcode argument].  Extracted to OCaml (bin/dlms_model) and also evaluated in the
    kernel by generated cases files.  Opcode names are parsed from the comments below by
    harness/lib.py — keep the format  "| <n> (* <name> *) =>". *)
-From Dlms Require Import Base CrcModel CrcSpec FieldsModel FieldsSpec AddrModel AddrSpec WrapperModel WrapperProofs TimeModel TimeProofs AxdrModel AxdrSpec AxdrProofs.
+From Dlms Require Import Base CrcModel CrcSpec FieldsModel FieldsSpec AddrModel AddrSpec WrapperModel WrapperProofs TimeModel TimeProofs AxdrModel AxdrSpec AxdrProofs FrameModel FrameProofs.
 
 Definition v_bools (l : list bool) : V := VList (map VBool l).
 Definition as_bools (v : V) : list bool := map as_b (as_list v).
@@ -67,6 +67,16 @@ Fixpoint as_data (v : V) : data :=
       DStruct ((fix go (l : list V) : list data := match l with [] => [] | x :: r => as_data x :: go r end) ch)
   | _ => DNull
   end.
+
+Definition as_kind (v : V) : fkind :=
+  let k := as_n v in
+  if k =? 0 then KSnrm else if k =? 1 then KUa else if k =? 2 then KRr else if k =? 3 then KInfo
+  else if k =? 4 then KDisc else KUi.
+Definition as_addr (v : V) : addr := (as_n (arg 0 v), as_optn (arg 1 v), as_b (arg 2 v)).
+Definition as_optbytes (v : V) : option bytes := match v with VBytes l => Some l | _ => None end.
+Definition v_frame (f : frame) : V :=
+  VList [v_addr (f_dest f); v_addr (f_src f); v_opt VBytes (f_payload f); VBool (f_segmented f);
+         VBool (f_final f); VN (f_ssn f); VN (f_rsn f)].
 
 Definition run (op : N) (a : V) : V :=
   match op with
@@ -157,5 +167,17 @@ Definition run (op : N) (a : V) : V :=
   | 89 (* spec_encode *) => VBytes (std_encode (as_data a))
   | 90 (* spec_py *) => v_pv (of_spec (py (as_data a)))
   | 91 (* spec_data_ok *) => VBool (data_ok (as_data a))
+  (* ---- HDLC frames (C09) ---- *)
+  | 100 (* frame_make_to_bytes *) =>
+      (* kind dest src payload segmented final ssn rsn *)
+      v_res VBytes (do f <- frame_make (as_kind (arg 0 a)) (as_addr (arg 1 a)) (as_addr (arg 2 a)) (as_optbytes (arg 3 a))
+                                        (as_b (arg 4 a)) (as_b (arg 5 a)) (as_z (arg 6 a)) (as_z (arg 7 a));
+                    frame_to_bytes (as_kind (arg 0 a)) f)
+  | 101 (* frame_from_bytes *) => v_res v_frame (frame_from_bytes (as_kind (arg 0 a)) (as_bytes (arg 1 a)))
+  | 102 (* spec_std_frame *) =>
+      let f := {| f_dest := as_addr (arg 1 a); f_src := as_addr (arg 2 a); f_payload := as_optbytes (arg 3 a);
+                  f_segmented := as_b (arg 4 a); f_final := as_b (arg 5 a);
+                  f_ssn := as_n (arg 6 a); f_rsn := as_n (arg 7 a) |} in
+      VList [VBytes (std_frame (as_kind (arg 0 a)) f); VBool (std_length (as_kind (arg 0 a)) f <=? 2047)]
   | _ => bad_args
   end.
